@@ -36,3 +36,122 @@ Lemma parser_fixed_witness :
   matches witness_fixed [97; 98] = true /\ matches witness_fixed [99; 100] = true /\
   matches witness_fixed [97; 98; 100] = false.
 Proof. vm_compute. repeat split. Qed.
+
+(* ---- the abstract syntax the repaired parser must return for a concrete syntax tree: the smart
+        constructors applied in the order of the grammar (sequences and alternatives fold to the
+        left, as the parser's loops do) *)
+Definition item_range (i : item) : Z * Z :=
+  match i with ISingle c => (c, c) | IRange c d => (c, d) end.
+
+Fixpoint build_atom (a : atom) : re :=
+  match a with
+  | ALit c => Symbol c
+  | AEsc c => Symbol c
+  | ADot => SIGMA
+  | AClass items => Sym (mk_iset (map item_range items))
+  | AGroup a => build_alt a
+  end
+with build_elem (e : elem) : re :=
+  match e with
+  | Elem a m =>
+      match m with
+      | MNone => build_atom a
+      | MStar => Star (build_atom a)
+      | MPlus => concatenate (build_atom a) (Star (build_atom a))
+      | MOpt => logical_or (build_atom a) Eps
+      end
+  end
+with build_seq (acc : re) (s : seq) : re :=
+  match s with
+  | SNil => acc
+  | SCons e s' => build_seq (concatenate acc (build_elem e)) s'
+  end
+with build_alt (a : alt) : re :=
+  match a with
+  | AltOne s => build_seq Eps s
+  | AltCons s a' => build_alt_from (build_seq Eps s) a'
+  end
+with build_alt_from (acc : re) (a : alt) : re :=
+  match a with
+  | AltOne s => logical_or acc (build_seq Eps s)
+  | AltCons s a' => build_alt_from (logical_or acc (build_seq Eps s)) a'
+  end.
+
+Scheme atom_mind := Induction for atom Sort Prop
+  with elem_mind := Induction for elem Sort Prop
+  with seq_mind := Induction for seq Sort Prop
+  with alt_mind := Induction for alt Sort Prop.
+Combined Scheme cst_mutind from atom_mind, elem_mind, seq_mind, alt_mind.
+
+Lemma L_Symbol c w : L (Symbol c) w <-> w = [c].
+Proof.
+  unfold Symbol. cbn [L]. split.
+  - intros (x & -> & H). apply mk_iset_spec, in_ranges_cons in H.
+    destruct H as [H|H]; [|now apply in_ranges_nil in H]. unfold inr in H. cbn in H.
+    f_equal. lia.
+  - intros ->. exists c. split; auto. apply mk_iset_spec, in_ranges_cons. left. unfold inr. cbn. lia.
+Qed.
+
+Lemma L_class items w :
+  L (Sym (mk_iset (map item_range items))) w <-> exists c, w = [c] /\ Exists (in_item c) items.
+Proof.
+  cbn [L]. split; intros (c & -> & H); exists c; split; auto.
+  - rewrite mk_iset_spec, in_ranges_alt in H. destruct H as (r & Hr & Hc).
+    apply in_map_iff in Hr. destruct Hr as (i & <- & Hi). apply Exists_exists. exists i. split; auto.
+    destruct i; unfold inr in Hc; cbn in *; lia.
+  - apply Exists_exists in H. destruct H as (i & Hi & Hc). rewrite mk_iset_spec, in_ranges_alt.
+    exists (item_range i). split; [now apply in_map|]. destruct i; unfold inr; cbn in *; lia.
+Qed.
+
+Lemma star_ext (P Q : list Z -> Prop) : (forall w, P w <-> Q w) -> forall w, star P w <-> star Q w.
+Proof.
+  intros H w. split; induction 1; constructor; auto; now apply H.
+Qed.
+
+Lemma build_meaning :
+  (forall a w, L (build_atom a) w <-> L_atom a w) /\
+  (forall e w, L (build_elem e) w <-> L_elem e w) /\
+  (forall s acc w, L (build_seq acc s) w <-> exists u v, w = u ++ v /\ L acc u /\ L_seq s v) /\
+  (forall a, (forall w, L (build_alt a) w <-> L_alt a w) /\
+             (forall acc w, L (build_alt_from acc a) w <-> L acc w \/ L_alt a w)).
+Proof.
+  apply cst_mutind.
+  - intros c w. apply L_Symbol.
+  - intros c w. apply L_Symbol.
+  - intros w. cbn [build_atom L_atom]. unfold SIGMA. cbn [L]. split; intros (c & -> & H); exists c; split; auto;
+      now apply sigma_spec.
+  - intros items w. apply L_class.
+  - intros a [IH _] w. apply IH.
+  - intros a IH m w. destruct m; cbn [build_elem L_elem].
+    + apply IH.
+    + cbn [L]. apply star_ext. exact IH.
+    + rewrite concatenate_L. cbn [L]. split; intros (u & v & -> & Hu & Hv); exists u, v.
+      * split; [reflexivity|]. split; [now apply IH|]. revert Hv. apply star_ext. intros x. first [apply IH | symmetry; apply IH].
+      * split; [reflexivity|]. split; [now apply IH|]. revert Hv. apply star_ext. intros x. first [apply IH | symmetry; apply IH].
+    + rewrite logical_or_L. cbn [L]. now rewrite IH.
+  - intros acc w. cbn [build_seq L_seq]. split.
+    + intros H. exists w, []. rewrite app_nil_r. auto.
+    + intros (u & v & -> & Hu & ->). now rewrite app_nil_r.
+  - intros e IHe s IHs acc w. cbn [build_seq L_seq]. rewrite IHs. split.
+    + intros (u & v & -> & Hu & Hv). apply concatenate_L in Hu. cbn [L] in Hu.
+      destruct Hu as (u1 & u2 & -> & H1 & H2). exists u1, (u2 ++ v). rewrite app_assoc.
+      split; [reflexivity|]. split; [assumption|]. exists u2, v. split; [reflexivity|]. split; [now apply IHe|assumption].
+    + intros (u & v & -> & Hu & (v1 & v2 & -> & H1 & H2)). exists (u ++ v1), v2. rewrite app_assoc.
+      split; [reflexivity|]. split; [|assumption]. apply concatenate_L. cbn [L]. exists u, v1.
+      split; [reflexivity|]. split; [assumption|now apply IHe].
+  - intros s IHs. assert (Hs : forall w, L (build_seq Eps s) w <-> L_seq s w).
+    { intros w. rewrite IHs. cbn [L]. split.
+      - intros (u & v & -> & -> & H). exact H.
+      - intros H. exists [], w. auto. }
+    split.
+    + intros w. cbn [build_alt L_alt]. apply Hs.
+    + intros acc w. cbn [build_alt_from L_alt]. now rewrite logical_or_L, Hs.
+  - intros s IHs a [IHa1 IHa2]. assert (Hs : forall w, L (build_seq Eps s) w <-> L_seq s w).
+    { intros w. rewrite IHs. cbn [L]. split.
+      - intros (u & v & -> & -> & H). exact H.
+      - intros H. exists [], w. auto. }
+    split.
+    + intros w. cbn [build_alt L_alt]. now rewrite IHa2, Hs.
+    + intros acc w. cbn [build_alt_from L_alt]. rewrite IHa2, logical_or_L, Hs. tauto.
+Qed.
+
